@@ -169,11 +169,15 @@ def generate(rng, tier="quick"):
             cfg["default_resolver"] = actors[0]["cfg"]["default_resolver"]
             cfg["share_format_checker"] = rng.random() < 0.5
             cfg["share_class"] = rng.random() < 0.6
+        cfg["share_format_checker_with_class_donor"] = rng.random() < 0.5
         actors.append({"world": windex[i], "cfg": cfg, "program": gen_program(rng, base, sites, faulty, tier),
                        "share_root_with": 0 if i in shared else None,
                        "store_from": (rng.randrange(i) if (i > 0 and i not in shared and rng.random() < 0.2) else None),
                        # this validator object is an instance of an EARLIER actor's (possibly derived) class
-                       "class_from": (rng.randrange(i) if (i > 0 and rng.random() < 0.3) else None)})
+                       "class_from": (rng.randrange(i) if (i > 0 and rng.random() < 0.3) else None),
+                       # ... or is simply given the FormatChecker OBJECT an earlier actor uses (as everybody who passes
+                       # jsonschema.draft7_format_checker does)
+                       "fc_from": (rng.randrange(i) if (i > 0 and rng.random() < 0.35) else None)})
     if mode == "coop":
         bias = rng.choice(["uniform", "runs", "alternate"])
         length = rng.randint(10, 60)
@@ -209,8 +213,15 @@ def generate(rng, tier="quick"):
             th = rng.randrange(n)
             spts.append([th, round(rng.random(), 6), round(rng.random(), 6),
                          rng.choice([t for t in range(n) if t != th]), rng.random() < 0.5])
+        upts = []
+        if rng.random() < 0.4:
+            # pre-emption INSIDE the user's own callables (a format / type / keyword function running on behalf of one
+            # validator is interrupted and another validator runs): the k-th line of user code a thread executes
+            for _ in range(rng.randint(1, 3)):
+                th = rng.randrange(n)
+                upts.append([th, round(rng.random(), 6), rng.choice([t for t in range(n) if t != th])])
         schedule = {"mode": "preempt", "fractions": pts, "first": rng.randrange(n), "quantum": quantum,
-                    "site_fractions": spts}
+                    "site_fractions": spts, "user_points": upts}
     more = []
     if mode == "preempt":
         # further schedules for the SAME worlds and programs (the alone-runs are paid for once): single
@@ -223,12 +234,16 @@ def generate(rng, tier="quick"):
                 th2 = rng.randrange(n)
                 sp.append([th2, round(rng.random(), 6), round(rng.random(), 6),
                            rng.choice([t for t in range(n) if t != th2]), rng.random() < 0.5])
-            more.append({"mode": "preempt", "fractions": [], "first": th, "quantum": 0, "site_fractions": sp})
+            up = []
+            if rng.random() < 0.5:
+                up = [[th, round(rng.random(), 6), rng.choice([t for t in range(n) if t != th])]]
+            more.append({"mode": "preempt", "fractions": [], "first": th, "quantum": 0, "site_fractions": sp,
+                         "user_points": up})
     return {"property": PROPERTY, "worlds": worlds, "actors": actors, "schedule": schedule,
             "more_schedules": more, "requests": rng.random() < 0.3, "share_instances": rng.random() < 0.2,
             "warnings_are_errors": rng.random() < 0.1,
             # nobody shares a root or hands over a store: each thread may then build its own validator itself
-            "late_construct": bool(not shared and all(a["store_from"] is None and a["class_from"] is None for a in actors)
+            "late_construct": bool(not shared and all(a["store_from"] is None and a["class_from"] is None and a["fc_from"] is None for a in actors)
                                    and rng.random() < 0.35)}
 
 
@@ -354,8 +369,10 @@ def build_actors(scn, router):
         sj = spec.get("store_from")
         donor = actors[sj] if (sj is not None and sj < i and src is None) else None
         cj = spec.get("class_from")
+        fj = spec.get("fc_from")
         actors.append(Actor(world, spec["cfg"], router, shared_from=src, store_from=donor,
                             class_from=actors[cj] if (cj is not None and cj < i) else None,
+                            fc_from=actors[fj] if (fj is not None and fj < i) else None,
                             defer=bool(scn.get("late_construct"))))
     return actors
 
@@ -386,6 +403,8 @@ class Preempt(object):
         self.points = list(points)
         self.pi = 0
         self.pkg = pkg
+        import dsim.behaviours as _b
+        self.user_code = _b.__file__          # where the simulated user's formats / types / keywords live
         self.trace = []
         self.first = first
         self.on_switch = None
@@ -396,6 +415,8 @@ class Preempt(object):
         self.hist = None            # alone-runs: {(filename, lineno): count} of traced lines
         self.site_watch = {}        # (thread, filename, lineno) -> [[occurrence, to], ...]
         self.site_seen = {}
+        self.user_watch = {}        # thread -> [[n-th line of USER code this thread executes, to], ...]
+        self.user_seen = {}
         self.blocked_events = 0
         self.blocked = set()        # threads the watchdog found blocked in a real lock; no baton for them until they move
         self.deadlock = False
@@ -421,7 +442,15 @@ class Preempt(object):
         fn = frame.f_code.co_filename
         if fn.startswith(self.pkg) and "/tests/" not in fn:
             return self.local
+        if fn == self.user_code:
+            return self.local       # the user's own callables (formats, types, keywords) are pre-emptible too
         return None
+
+    def site(self, frame):
+        fn = frame.f_code.co_filename
+        if fn.startswith(self.pkg):
+            return "%s:%d" % (fn[len(self.pkg):], frame.f_lineno)
+        return "user-code:%d" % frame.f_lineno
 
     def local(self, frame, event, arg):
         if event == "line":
@@ -432,10 +461,21 @@ class Preempt(object):
                 self.blocked.discard(me)    # I was blocked in a real lock while the baton moved on; I move again
                 self.wait_baton(me)
             self.step += 1
-            if self.hist is not None:
+            inpkg = frame.f_code.co_filename.startswith(self.pkg)
+            if self.hist is not None and inpkg:
                 key = (frame.f_code.co_filename, frame.f_lineno)
                 self.hist[key] = self.hist.get(key, 0) + 1
-            if self.site_watch:
+            if not inpkg:
+                n = self.user_seen.get(me, 0) + 1
+                self.user_seen[me] = n
+                for occ, to in self.user_watch.get(me, ()):
+                    if occ == n and to != me and not self.done[to] and to not in self.blocked:
+                        if self.on_switch:
+                            self.on_switch(me, to)
+                        self.trace.append([self.step, me, to, self.site(frame)])
+                        self.handoff(me, to)
+                        break
+            if self.site_watch and inpkg:
                 key = (me, frame.f_code.co_filename, frame.f_lineno)
                 w = self.site_watch.get(key)
                 if w is not None:
@@ -451,7 +491,7 @@ class Preempt(object):
             if self.pi < len(self.points) and self.step >= self.points[self.pi][0]:
                 _, to = self.points[self.pi]
                 self.pi += 1
-                site = "%s:%d" % (frame.f_code.co_filename[len(self.pkg):], frame.f_lineno)
+                site = self.site(frame)
                 if to == "gc":
                     if self.on_gc:
                         self.on_gc(me)
@@ -473,8 +513,7 @@ class Preempt(object):
                     if self.on_switch:
                         self.on_switch(me, to)
                     if len(self.trace) < 64:
-                        self.trace.append([self.step, me, to, "%s:%d" % (frame.f_code.co_filename[len(self.pkg):],
-                                                                          frame.f_lineno)])
+                        self.trace.append([self.step, me, to, self.site(frame)])
                     self.handoff(me, to)
         return self.local
 
@@ -558,6 +597,8 @@ def exec_alone(arg):
     sj = spec.get("store_from")
     if sj is None:
         sj = spec.get("class_from")
+    if sj is None:
+        sj = spec.get("fc_from")
     if sj is not None and sj < i:
         # the donor of the store object is constructed (never operated), exactly as in the interleaved run;
         # a donor may itself have taken its store from an earlier actor (or share a root with one), so the
@@ -569,6 +610,7 @@ def exec_alone(arg):
     actors = build_actors(one, router)
     st = Stepper(actors[-1], spec["program"], scn["worlds"][0]["instances"], scn.get("share_instances", False))
     lines = 0
+    user_lines = 0
     hist = {}
     if scn["schedule"]["mode"] == "preempt":
         pkg = pkg_prefix()
@@ -576,10 +618,12 @@ def exec_alone(arg):
         p.hist = {}
         p.run([st.run_all])
         lines = p.step
+        user_lines = p.user_seen.get(0, 0)
         hist = dict(("%s:%d" % (fn[len(pkg):], ln), c) for (fn, ln), c in p.hist.items())
     else:
         st.run_all()
-    return {"outcomes": st.outcomes, "lines": lines, "violations": st.violations, "hist": hist}
+    return {"outcomes": st.outcomes, "lines": lines, "violations": st.violations, "hist": hist,
+            "user_lines": user_lines}
 
 
 def exec_inter(scn):
@@ -644,6 +688,9 @@ def exec_inter(scn):
         for th, site, occ, to in sched.get("resolved_sites") or []:
             fn, ln = site.rsplit(":", 1)
             p.site_watch.setdefault((th, pkg + fn, int(ln)), []).append([occ, to])
+        for th, occ, to in sched.get("resolved_user") or []:
+            if th < len(steppers) and to < len(steppers):
+                p.user_watch.setdefault(th, []).append([occ, to])
 
         def on_switch(me, to):
             probe("preempt_switches")
@@ -704,6 +751,12 @@ def same_outcome(a, b):
 
 
 def resolve_schedule(sched, alone, n):
+    if sched["mode"] == "preempt" and "resolved_user" not in sched:
+        ru = []
+        for th, f, to in sched.get("user_points") or []:
+            if th < n and alone[th].get("user_lines", 0) > 0:
+                ru.append([th, 1 + int(f * alone[th]["user_lines"]), to])
+        sched["resolved_user"] = ru
     if sched["mode"] == "preempt" and "resolved" not in sched:
         horizon = max(1, sum(a["lines"] for a in alone))
         sched["horizon"] = horizon
@@ -854,7 +907,7 @@ def shrink(scn):
     if len(scn["actors"]) > 2:
         for i in range(len(scn["actors"]) - 1, -1, -1):
             if any(a.get("share_root_with") == i or a.get("store_from") == i or a.get("class_from") == i
-                   for a in scn["actors"]):
+                   or a.get("fc_from") == i for a in scn["actors"]):
                 continue
             c = copy.deepcopy(scn)
             del c["actors"][i]
@@ -865,6 +918,8 @@ def shrink(scn):
                     a["store_from"] -= 1
                 if a.get("class_from") is not None and a["class_from"] > i:
                     a["class_from"] -= 1
+                if a.get("fc_from") is not None and a["fc_from"] > i:
+                    a["fc_from"] -= 1
             if c["schedule"]["mode"] == "coop":
                 c["schedule"]["order"] = [x if x < i else x - 1 for x in c["schedule"]["order"] if x != i]
             else:
